@@ -404,9 +404,15 @@ def value_shapes(tier):
     out = []
 
     def add(sig, types, vname, vtype, vtext, expect, nph, dflt=None):
+        import re as _re
         body = ' '.join(types) + (f" {vname} {vtype} ::= {vtext}" if vname else '')
         text = f"M DEFINITIONS AUTOMATIC TAGS ::= BEGIN {body} END"
         out.append((sig, text, {'expect': expect, 'nph': nph, 'vname': vname, 'dflt': dflt}))
+        # the definitions are linked in name order: a value that refers to another value is checked with the referenced
+        # value named BEFORE it (aw) as well as after it (w)
+        if 'value reference' in sig and vname and _re.search(r'\bw\b', body):
+            text2 = f"M DEFINITIONS AUTOMATIC TAGS ::= BEGIN {_re.sub(r'(?<![-A-Za-z0-9])w(?![-A-Za-z0-9:])', 'aw', body)} END"
+            out.append((sig + ' [referenced value named first]', text2, {'expect': expect, 'nph': nph, 'vname': vname, 'dflt': dflt}))
     I = lambda k: V('int', term=k)
     add('C07 value INTEGER', [], 'v', 'INTEGER', str(PH(0)), I(0), 1)
     add('C07 value negative INTEGER', [], 'v', 'INTEGER', '-' + str(PH(0)), V('neg', inner=I(0)), 1)
@@ -518,6 +524,9 @@ def value_shapes(tier):
     add("C07 default SEQUENCE OF via type ref", ['Ll ::= SEQUENCE OF INTEGER', f"Outer ::= SEQUENCE {{ i Ll DEFAULT {{ {PH(0)}, {PH(1)} }} }}"], None, None, None, V('list', items=[I(0), I(1)]), 2, dflt='outer_i_default')
     add("C07 default CHOICE via type ref", ['Cc ::= CHOICE { p INTEGER, q NULL }', f"Outer ::= SEQUENCE {{ i Cc DEFAULT p:{PH(0)} }}"], None, None, None, V('choice', alt='p', inner=I(0)), 1, dflt='outer_i_default')
     # value references at top level: resolved to the value they name (chains, both declaration orders, alias types)
+    add('C07 value reference to a value of the referenced type, governed by an alias', ['Tt ::= INTEGER (-8..7)', 'Uu ::= Tt', f"w Tt ::= 5"], 'v', 'Uu', 'w', V('intc', n=5), 0)
+    add('C07 default value reference of a named-number type for a plain INTEGER', ['Tt ::= INTEGER { one(1) }', 'w Tt ::= one', 'Ss ::= SEQUENCE { x INTEGER DEFAULT w }'], None, None, None, V('intc', n=1), 0, dflt='ss_x_default')
+    add('C07 value reference inside a constrained SEQUENCE OF', ['w INTEGER (0..255) ::= 7'], 'v', 'SEQUENCE OF INTEGER (0..65535)', '{ w, 300 }', V('list', items=[V('intc', n=7), V('intc', n=300)]), 0)
     add('C07 value reference declared later', [], 'v', 'INTEGER', f"w w INTEGER ::= {PH(0)}", I(0), 1)
     add('C07 value reference chain', [f"c INTEGER ::= {PH(0)}", 'b INTEGER ::= c'], 'v', 'INTEGER', 'b', I(0), 1)
     add('C07 value reference chain declared later', [], 'v', 'INTEGER', f"b b INTEGER ::= c c INTEGER ::= {PH(0)}", I(0), 1)
@@ -715,6 +724,11 @@ def compare(chk, pc, got, want, syms, path='value'):
             gt = z3.SignExt(W - g.size(), g)
         m = chk.holds(pc, gt == term, 'int-literal')
         return [f"{path}: integer literal differs from the source (e.g. source {model_int(m, term)})"] if m else []
+    if k == 'intc':
+        # a concrete integer written in the shape
+        if got[0] != 'int' or not isinstance(got[1], int) or got[1] != want.n:
+            return [f"{path}: {got[:2]}, source says {want.n}"]
+        return []
     if k == 'bool':
         return [] if got == ('bool', want.b) else [f"{path}: {got}, source says {want.b}"]
     if k == 'null':
